@@ -140,18 +140,20 @@ def gen_world(rng, profile=None):
                 # entity's cell); drawn from a stream of its own
                 rng2 = random.Random(f'multi-target|{v.id}|{chain}|{len(stations)}|{len(bases)}')
                 state = None
+                ent = None
                 if rng2.random() < 0.45 and (stations or bases):
                     from nrel.hive.state.vehicle_state.dispatch_station import DispatchStation
                     from nrel.hive.state.vehicle_state.dispatch_base import DispatchBase
-                    ents = [e for e in list(stations) + list(bases) if e.membership.grant_access_to_membership(v.membership)] or (list(stations) + list(bases))
-                    ent = rng2.choice(ents)
-                    if links[-1].end != ent.geoid:
-                        a, b = links[-1].end, ent.geoid
-                        links.append(LinkTraversal(link_id=f'{a}-{b}', start=a, end=b, distance_km=H3Ops.great_circle_distance(a, b), speed_kmph=40))
-                    if ent in stations:
-                        state = DispatchStation.build(v.id, ent.id, tuple(links), rng2.choice(sorted(ent.state.keys())))
-                    else:
-                        state = DispatchBase.build(v.id, ent.id, tuple(links))
+                    ents = [e for e in list(stations) + list(bases) if e.membership.grant_access_to_membership(v.membership)]
+                    ent = rng2.choice(ents) if ents else None
+                if ent is not None:
+                        if links[-1].end != ent.geoid:
+                            a, b = links[-1].end, ent.geoid
+                            links.append(LinkTraversal(link_id=f'{a}-{b}', start=a, end=b, distance_km=H3Ops.great_circle_distance(a, b), speed_kmph=40))
+                        if ent in stations:
+                            state = DispatchStation.build(v.id, ent.id, tuple(links), rng2.choice(sorted(ent.state.keys())))
+                        else:
+                            state = DispatchBase.build(v.id, ent.id, tuple(links))
                 links = tuple(links)
                 vehicles[idx] = v.modify_vehicle_state(state or Repositioning.build(v.id, links))
     sim = ml.mock_sim(sim_time=t0, sim_timestep_duration_seconds=delta, vehicles=tuple(vehicles), stations=tuple(stations), bases=tuple(bases))
